@@ -4,6 +4,7 @@ import (
 	"fmt"
 	"io"
 	"net"
+	"strings"
 	"time"
 
 	"hop.computer/hop/tubes"
@@ -108,8 +109,8 @@ func scBulkStop(r *Run) {
 	})
 	// the event in the middle of the transfer
 	time.Sleep(time.Duration(10+r.Intn("cfg", 2500)) * time.Millisecond)
-	ev := r.Intn("cfg", 6)
-	evName := []string{"writer muxer Stop", "reader muxer Stop", "network dies, then writer Close", "writer Close then Stop", "reader Close then writer Stop", "both Stop"}[ev]
+	ev := r.Intn("cfg", 7)
+	evName := []string{"writer muxer Stop", "reader muxer Stop", "network dies, then writer Close", "writer Close then Stop", "reader Close then writer Stop", "both Stop", "two Stop calls on the writer muxer, the second a little later, over a slow socket"}[ev]
 	r.SetCfg("event", evName)
 	stop := func(name string, m *tubes.Muxer) {
 		r.Obligation(1)
@@ -147,6 +148,40 @@ func scBulkStop(r *Run) {
 		closeT("reader tube", peer)
 		time.Sleep(time.Duration(r.Intn("cfg", 1500)) * time.Millisecond)
 		stop("writer", writerMux)
+	case 6:
+		// Stop is called twice (the application's call and, say, the one the muxer starts for itself after a
+		// transport error), over a socket that holds writers up.  Whichever call returns: the shutdown is complete
+		// then - the transport under the muxer is closed.
+		wep := mp.EA
+		if writerMux == mp.B {
+			wep = mp.EB
+		}
+		if !mp.Stack {
+			hold := time.Duration(100+r.Intn("cfg", 1500)) * time.Millisecond
+			wep.WriteStall = func() time.Duration { return hold }
+		}
+		second := time.Duration(r.Intn("cfg", 2500)) * time.Millisecond
+		done := make(chan struct{}, 2)
+		call := func(name string, after time.Duration) {
+			r.Go(func() {
+				defer func() { done <- struct{}{} }()
+				time.Sleep(after)
+				stop(name, writerMux)
+				r.Obligation(1)
+				// the muxer's own goroutines (the two its start routine creates) are gone when Stop returns; the
+				// other muxer, which nobody has stopped yet, still has its two
+				time.Sleep(time.Millisecond) // (a goroutine that has handed over its result still has to return)
+				stacks, _ := bubbleStacks()
+				if nw := strings.Count(stacks, "created by hop.computer/hop/tubes.(*Muxer).start"); nw > 2 && !r.Failed() {
+					r.NoLeakCheck = true
+					r.Violate("C16/stop-returned-before-shutdown-completed", "the %s Stop call on the writer muxer returned while that muxer's sender/receiver goroutines were still running (%d goroutines started by Muxer.start are alive, 2 belong to the other muxer; transport closed: %v): %s", name, nw, wep.IsClosed(), evName)
+				}
+			})
+		}
+		call("first", 0)
+		call("second", second)
+		<-done
+		<-done
 	default:
 		done := make(chan struct{}, 2)
 		r.Go(func() { stop("writer", writerMux); done <- struct{}{} })
